@@ -253,7 +253,7 @@ class ErrScn:
                 bad = [x for x in errs if x[0] not in ("RemoteError", "EOFError")]
                 if bad:
                     return V("peer-exception", f"peer saw {errs}")
-                if P["i"] < P["n"] and not any(x[0] == "RemoteError" for x in errs) and "boom-x" not in w.stderr.getvalue() and "custom-msg" not in w.stderr.getvalue():
+                if P["i"] < P["n"] and not any(x[0] == "RemoteError" for x in errs) and tmsg not in w.stderr.getvalue():
                     return V("error-vanished", f"callback error neither reached the peer nor was warned about; peer saw {errs}")
             elif kind == "body" or P["i"] < P["n"]:
                 if not errs or errs[0][0] != "RemoteError":
@@ -283,7 +283,7 @@ class ErrScn:
                 pw = d.get("peer-waitclose")
                 if not pw or pw[0][0] not in ("RemoteError", "returned"):
                     return V("peer-exception", f"peer (worker) waitclose: {pw}")
-                if pw[0][0] == "returned" and "boom-x" not in w.stderr.getvalue() and "custom-msg" not in w.stderr.getvalue():
+                if pw[0][0] == "returned" and tmsg not in w.stderr.getvalue():
                     return V("error-vanished", "callback error neither reached the peer nor was warned about")
             elif P["i"] < P["n"]:
                 pw = d.get("peer-waitclose")
@@ -419,7 +419,7 @@ def stmt_pred(m, q, l):
 def cases(tier):
     cs = []
     for kind in ("body", "cb-worker", "cb-init"):
-        for n, i in ((2, 0), (2, 1), (2, 2)) if tier == "quick" else ((0, 0), (1, 0), (2, 0), (2, 1), (2, 2), (3, 2), (3, 3)):
+        for n, i in ((2, 0), (2, 1), (2, 2)) if tier == "quick" else ((0, 0), (2, 0), (2, 1), (2, 2), (3, 3)):
             if kind == "body" and i > n:
                 continue
             for exc in ("ValueError", "Custom", "ZeroDivisionError", "SystemExit", "CustomBase", "GeneratorExit"):
@@ -430,6 +430,8 @@ def cases(tier):
                 if tier == "quick" and exc in ("ZeroDivisionError",):
                     continue
                 if tier == "quick" and exc != "ValueError" and (n, i) != (2, 1):
+                    continue
+                if tier != "quick" and exc != "ValueError" and (n, i) not in ((2, 1), (0, 0), (3, 3)):
                     continue
                 for dropped in (False, True):
                     if kind == "body" and dropped:
@@ -446,7 +448,7 @@ def run(tier: str, only=None) -> int:
     if tier == "quick":
         b_sync, b_stmt, cap = {"ps": 1, "free": 1}, {"ps": 0, "pl": 1, "free": 0}, 300000
     else:
-        b_sync, b_stmt, cap = {"ps": 2, "free": 2}, {"ps": 1, "pl": 1, "free": 1}, 6000000
+        b_sync, b_stmt, cap = {"ps": 2, "free": 1}, {"ps": 0, "pl": 1, "free": 1}, 6000000
     for i, C in enumerate(cases(tier)):
         name = f"err/{i}:{C['kind']}:n{C['n']}i{C['i']}:{C['exc']}:{'dropped' if C['dropped'] else 'alive'}"
         if only and only not in name:
@@ -455,7 +457,7 @@ def run(tier: str, only=None) -> int:
         rep.sample({"sub": name, "params": P})
         harness.run_exploration(rep, PID, name + "/sync", ErrScn, P, b_sync, max_execs=cap)
         harness.run_exploration(rep, PID, name + "/stmt", ErrScn, P, b_stmt, stmt=stmt, max_execs=cap)
-        if C["exc"] in ("ValueError", "SystemExit") and C["i"] == 1 and not C["dropped"] or tier == "thorough":
+        if C["exc"] in ("ValueError", "SystemExit") and C["i"] == 1 and not C["dropped"] or (tier == "thorough" and C["exc"] == "ValueError" and (C["n"], C["i"]) in ((0, 0), (2, 2))):
             # other worker exec models and transports: the gateway must stay usable there too
             for tr, be in (("popen", "main_thread_only"), ("socket", "thread"), ("via", "thread")):
                 if C["kind"] != "body" and be == "main_thread_only":
@@ -463,7 +465,7 @@ def run(tier: str, only=None) -> int:
                 # main_thread_only runs one body at a time: no concurrently running sibling there
                 P2 = dict(C, transport=tr, backend=be, sibling=be != "main_thread_only")
                 harness.run_exploration(rep, PID, f"{name}/{tr}:{be}", ErrScn, P2, {"ps": 1, "free": 0}, max_execs=cap)
-        if C["exc"] in ("ValueError", "Custom") and C["i"] == 1 or tier == "thorough":
+        if C["exc"] in ("ValueError", "Custom") and C["i"] == 1 or (tier == "thorough" and C["exc"] == "ValueError" and C["i"] in (0, 2) and not C["dropped"]):
             # the error path must not depend on the gateway's string coercion settings (items are ints)
             for rc in ({"py3str_as_py2str": True}, {"py2str_as_py3str": False}, {"py3str_as_py2str": True, "py2str_as_py3str": False}):
                 P3 = dict(C, transport="popen", backend="thread", reconf=rc)
